@@ -32,6 +32,9 @@ fn role_of(file: &str, func: &str, recv: &str, kind: &str) -> &'static str {
     if func.starts_with("verif_") {
         return ".audit";
     }
+    if kind == ".other" {
+        return ".unknown";
+    }
     let is_cas = kind == ".cas" || kind == ".casWeak";
     match file {
         "atomic_bucket.rs" => {
@@ -140,6 +143,8 @@ impl V {
             "compare_exchange" => Some(".cas"),
             "compare_exchange_weak" => Some(".casWeak"),
             "swap" => Some(".swap"),
+            // read-modify-writes the model has no transition for
+            "fetch_sub" | "fetch_max" | "fetch_min" | "fetch_and" | "fetch_or" | "fetch_xor" | "fetch_nand" => Some(".other"),
             _ => None,
         };
         if let Some(kind) = kind {
